@@ -396,11 +396,13 @@ struct suspend_point_type {
     }
 
     void finilize_resume() {
+        __TBB_VERIF_POINT(vp_resume_finalize, m_prev_suspend_point, 0);
         m_stack_state.store(stack_state::active, std::memory_order_relaxed);
         // Set the suspended state for the stack that we left. If the state is already notified, it means that
         // someone already tried to resume our previous stack but failed. So, we need to resume it.
         // m_prev_suspend_point might be nullptr when destroying co_context based on threads
         if (m_prev_suspend_point && m_prev_suspend_point->m_stack_state.exchange(stack_state::suspended) == stack_state::notified) {
+            __TBB_VERIF_POINT(vp_resume_outcome, m_prev_suspend_point, 1);
             r1::resume(m_prev_suspend_point);
         }
         m_prev_suspend_point = nullptr;
